@@ -254,25 +254,22 @@ impl Service {
     /// 刷新重新纳入本节点管理的实例
     /// 增量http实例增加过期管理
     pub(crate) fn do_refresh_process_range(&mut self) {
-        let instances: Vec<&Arc<Instance>> = self
+        let keys: Vec<InstanceShortKey> = self
             .instances
             .values()
             .filter(|instance| !instance.from_grpc && instance.is_from_cluster())
+            .map(|instance| instance.get_short_key())
             .collect();
-        //log::info!("do_refresh_process_range instance size:{}", instances.len());
-        for instance in instances {
-            /*
-            log::info!(
-                "do_refresh_process_range item,key:{:?},last_modified_millis:{},client_id:{}",
-                instance.get_short_key(),
-                instance.last_modified_millis,
-                &instance.client_id
-            );
-             */
-            self.healthy_timeout_set.add(
-                instance.last_modified_millis as u64,
-                instance.get_short_key(),
-            );
+        //log::info!("do_refresh_process_range instance size:{}", keys.len());
+        for key in keys {
+            if let Some(old) = self.instances.get(&key) {
+                // 接管实例: 归本节点负责后才会参与过期检查(is_enable_timeout)
+                let mut instance = old.as_ref().clone();
+                instance.from_cluster = 0;
+                let last_modified_millis = instance.last_modified_millis as u64;
+                self.instances.insert(key.clone(), Arc::new(instance));
+                self.healthy_timeout_set.add(last_modified_millis, key);
+            }
         }
     }
 
